@@ -3,10 +3,10 @@ package main
 // Symbolic executor / VC generator over go/ssa (NaiveForm | InstantiateGenerics).
 
 import (
-	"os"
 	"fmt"
 	"go/token"
 	"go/types"
+	"os"
 	"strconv"
 	"strings"
 
@@ -26,16 +26,16 @@ type Obligation struct {
 	VCs  []VC
 	Site string
 	// filled by the solver stage
-	Status  string // discharged | failed | error
-	Solver  string
-	TimeS   float64
-	Model   string
-	Detail  string
-	SmtSize int
-	scripts []string          // closed scripts (position lemmas); each must be unsat
-	script  *smtScript        // declarations of the verification unit this obligation belongs to
-	Inputs  map[string]string // values of the function's inputs in the counterexample
-	Trace   []string          // oracle decisions (write failures, select arms) along the failing path
+	Status     string // discharged | failed | error
+	Solver     string
+	TimeS      float64
+	Model      string
+	Detail     string
+	SmtSize    int
+	scripts    []string          // closed scripts (position lemmas); each must be unsat
+	script     *smtScript        // declarations of the verification unit this obligation belongs to
+	Inputs     map[string]string // values of the function's inputs in the counterexample
+	Trace      []string          // oracle decisions (write failures, select arms) along the failing path
 	inputTerms map[string]string
 }
 
@@ -66,29 +66,29 @@ type Exec struct {
 	siteCtr   map[string]int
 	ghostInit bool
 
-	usedContracts map[string]bool
-	coverSeen     map[string]int
+	usedContracts  map[string]bool
+	coverSeen      map[string]int
 	lastWrittenOld map[string]bool // result of the last dry run: regions written at pre-existing objects
-	dryFresh      map[string]bool // objects allocated during the current loop dry run
-	invDepth      int
-	inInvariant   bool     // evaluating loop invariants (identifier fallbacks that are safe for lemmas only)
-	rebound       []string // loop invariants re-bound from a stale key to a moved loop
-	dryAborted    string // non-empty: the last loop dry run hit a subset error (its write set is unreliable)
-	trackedChans  map[string]types.Type // channel terms made for a local variable listed in the contract's tokens clause
-	usedRegex     map[string]bool
-	blocking      []blockingOp
-	spawned       []*ssa.Function
-	lockSites     int
-	funs          map[string]string
-	funOrder      []string
-	assertCtr     map[string]int
-	exits         int
-	substrOf      map[string]string
-	inputTerms    map[string]string
-	preLocks      int
-	atom          *atomicSpec
-	assertSeen    map[string]bool
-	tagTypes      map[string]types.Type
+	dryFresh       map[string]bool // objects allocated during the current loop dry run
+	invDepth       int
+	inInvariant    bool                  // evaluating loop invariants (identifier fallbacks that are safe for lemmas only)
+	rebound        []string              // loop invariants re-bound from a stale key to a moved loop
+	dryAborted     string                // non-empty: the last loop dry run hit a subset error (its write set is unreliable)
+	trackedChans   map[string]types.Type // channel terms made for a local variable listed in the contract's tokens clause
+	usedRegex      map[string]bool
+	blocking       []blockingOp
+	spawned        []*ssa.Function
+	lockSites      int
+	funs           map[string]string
+	funOrder       []string
+	assertCtr      map[string]int
+	exits          int
+	substrOf       map[string]string
+	inputTerms     map[string]string
+	preLocks       int
+	atom           *atomicSpec
+	assertSeen     map[string]bool
+	tagTypes       map[string]types.Type
 }
 
 type execMode struct {
